@@ -86,8 +86,18 @@ func HarnessC03Each() {
 	hasElse := vChoice("else", 2) == 1
 	k := string([]byte{vByte("k")})
 	c := ""
+	// the condition of @breakIf/@continueIf as a comparison, as a boolean that comes from the data (one flag per
+	// element), or as a truthy / falsy number
+	hit := make([]any, len(xs))
+	for i, x := range xs {
+		hit[i] = x == k
+	}
 	if ctrl != 0 {
-		c = wrap[0] + c03Ctrl[ctrl] + wrap[1]
+		d := c03Ctrl[ctrl]
+		if ctrl >= 3 {
+			d = d[:len(d)-len("(v == k)")] + []string{"(v == k)", "(hit[loop.index])", "(v == k ? 7 : 0)"}[vChoice("cond-form", 3)]
+		}
+		c = wrap[0] + d + wrap[1]
 	}
 	parts := []string{c03X, c03Y}
 	body := "["
@@ -106,7 +116,7 @@ func HarnessC03Each() {
 	}
 	src += "@end S"
 	want := "P" + refEach(xs, ctrl, pos, k, hasElse) + " S"
-	out, err := EvaluateString(src, map[string]any{"xs": toAny(xs), "k": k, "t": true, "f": false})
+	out, err := EvaluateString(src, map[string]any{"xs": toAny(xs), "k": k, "t": true, "f": false, "hit": hit})
 	vCover("rendered")
 	vAssert(err == nil, "each-renders-without-error")
 	vAssert(vEqStr(out, want), "each-iterates-in-order-with-loop-metadata-and-control-directives")
